@@ -402,11 +402,22 @@ class SqlDbOutputStream(OutputStream):
 SqlOutputStream = SqlDbOutputStream
 
 
+def _reject_nul(value: str) -> str:
+    """sqlite's quote(), used by iterdump(), cuts a text value at its first NUL."""
+    if "\x00" in value:
+        raise ValueError("A SQL script cannot represent a NUL character in a string")
+    return value
+
+
 class SqlTextOutputStream(FileOutputStream):
     """Output stream to generate a SQL text file"""
 
     mode = "wt"
     is_text = True
+    encoders: Mapping[type, Callable] = {
+        **FileOutputStream.encoders,
+        str: _reject_nul,
+    }
 
     def __init__(self, stream_or_path=None, **kwargs):
         self.text_output = SmartStream(stream_or_path)
